@@ -5,26 +5,40 @@ Require Import MD.Gen.DescFormulas MD.Desc.AlgebraModel.
 Local Open Scope Q_scope.
 
 (* ------------------------------------------------------------------ sums *)
+Lemma qsum_cons x l : qsum (x :: l) == x + qsum l.
+Proof. unfold qsum. cbn [fold_right]. apply Qred_correct. Qed.
+
+Lemma qsum_nil : qsum [] = 0.
+Proof. reflexivity. Qed.
+
+Opaque qsum.
+
 Lemma qsum_app l1 l2 : qsum (l1 ++ l2) == qsum l1 + qsum l2.
-Proof. induction l1 as [|x r IH]; simpl; [ring|]. rewrite IH. ring. Qed.
+Proof.
+  induction l1 as [|x r IH]; cbn [app]; [rewrite qsum_nil; ring|]. rewrite !qsum_cons, IH. ring.
+Qed.
 
 Lemma qsum_ext {A} (f g : A -> Q) l : (forall x, In x l -> f x == g x) -> qsum (map f l) == qsum (map g l).
 Proof.
-  induction l as [|x r IH]; intros H; simpl; [reflexivity|].
-  rewrite (H x (or_introl eq_refl)), IH; [reflexivity|]. intros y Hy. apply H. right; exact Hy.
+  induction l as [|x r IH]; intros H; cbn [map]; [reflexivity|].
+  rewrite !qsum_cons, (H x (or_introl eq_refl)), IH; [reflexivity|]. intros y Hy. apply H. right; exact Hy.
 Qed.
 
 Lemma qsum_map_plus {A} (f g : A -> Q) l :
   qsum (map (fun x => f x + g x) l) == qsum (map f l) + qsum (map g l).
-Proof. induction l as [|x r IH]; simpl; [ring|]. rewrite IH. ring. Qed.
+Proof.
+  induction l as [|x r IH]; cbn [map]; [rewrite qsum_nil; ring|]. rewrite !qsum_cons, IH. ring.
+Qed.
 
 Lemma qsum_map_scal {A} (k : Q) (f : A -> Q) l : qsum (map (fun x => k * f x) l) == k * qsum (map f l).
-Proof. induction l as [|x r IH]; simpl; [ring|]. rewrite IH. ring. Qed.
+Proof.
+  induction l as [|x r IH]; cbn [map]; [rewrite qsum_nil; ring|]. rewrite !qsum_cons, IH. ring.
+Qed.
 
 Lemma qsum_ones n : qsum (ones n) == inject_Z (Z.of_nat n).
 Proof.
   induction n as [|n IH]; [reflexivity|].
-  change (ones (S n)) with (1 :: ones n). simpl qsum. rewrite IH.
+  change (ones (S n)) with (1 :: ones n). rewrite qsum_cons, IH.
   rewrite Nat2Z.inj_succ. unfold Z.succ. rewrite inject_Z_plus. ring.
 Qed.
 
@@ -53,7 +67,8 @@ Qed.
 Lemma second_moment_expand a l :
   qsum (map (fun mx => fst mx * ((snd mx - a) * (snd mx - a))) l) == P3 l - (2 # 1) * a * P2 l + a * a * P1 l.
 Proof.
-  unfold P1, P2, P3. induction l as [|[m x] r IH]; simpl; [ring|]. rewrite IH. ring.
+  unfold P1, P2, P3. induction l as [|[m x] r IH]; cbn [map fst snd]; [rewrite !qsum_nil; ring|].
+  rewrite !qsum_cons, IH. ring.
 Qed.
 
 (* ------------------------------------------------------------------ centre of mass *)
@@ -109,7 +124,7 @@ Proof.
   unfold wmean, mean. rewrite qsum_ones.
   assert (E : forall l : list Q, qsum (map (fun mx => fst mx * snd mx) (combine (ones (length l)) l)) == qsum l).
   { induction l as [|x r IH]; [reflexivity|]. change (ones (length (x :: r))) with (1 :: ones (length r)).
-    simpl. rewrite IH. ring. }
+    cbn [combine map fst snd]. rewrite !qsum_cons, IH. ring. }
   rewrite E. reflexivity.
 Qed.
 
@@ -180,7 +195,7 @@ Lemma unit_second_moment a xs :
   qsum (map (fun x => (x - a) * (x - a)) xs).
 Proof.
   induction xs as [|x r IH]; [reflexivity|]. change (ones (length (x :: r))) with (1 :: ones (length r)).
-  simpl. rewrite IH. ring.
+  cbn [combine map fst snd]. rewrite !qsum_cons, IH. ring.
 Qed.
 
 Theorem rg2_is_trace pts : rg2_cur (ones (length pts)) pts == tr3 (gyration pts).
@@ -241,12 +256,12 @@ Proof. unfold shape_asphericity, shape_acylindricity. field. Qed.
 
 (* documented forms (shape.py docstrings give b = l3 - (l1+l2)/2 only implicitly): *)
 Theorem shape_forms l0 l1 l2 :
-  shape_asphericity l0 l1 l2 == l2 - (l0 + l1) / (2 # 1) /\
-  shape_acylindricity l0 l1 l2 == l1 - l0 /\
-  shape_kappa2 l0 l1 l2 ==
-    (3 # 2) * (l0 * l0 + l1 * l1 + l2 * l2) / ((l0 + l1 + l2) * (l0 + l1 + l2)) - (1 # 2).
+  shape_asphericity l0 l1 l2 == spec_asphericity l0 l1 l2 /\
+  shape_acylindricity l0 l1 l2 == spec_acylindricity l0 l1 l2 /\
+  (~ l0 + l1 + l2 == 0 -> shape_kappa2 l0 l1 l2 == spec_kappa2 l0 l1 l2).
 Proof.
-  unfold shape_asphericity, shape_acylindricity, shape_kappa2. repeat split; try reflexivity; try (unfold Qdiv; simpl; ring).
+  unfold shape_asphericity, shape_acylindricity, shape_kappa2, spec_asphericity, spec_acylindricity, spec_kappa2.
+  split; [field|]. split; [ring|]. intros H. field. exact H.
 Qed.
 
 (* ranges for ordered non-negative moments *)
@@ -256,7 +271,9 @@ Theorem shape_ranges l0 l1 l2 :
   0 <= shape_kappa2 l0 l1 l2 /\ shape_kappa2 l0 l1 l2 <= 1.
 Proof.
   intros H0 H1 H2 HS.
-  destruct (shape_forms l0 l1 l2) as [Eb [Ec Ek]]. rewrite Eb, Ec, Ek.
+  destruct (shape_forms l0 l1 l2) as [Eb [Ec Ek]].
+  assert (HS' : ~ l0 + l1 + l2 == 0) by (intro Z; rewrite Z in HS; apply (Qlt_irrefl 0 HS)).
+  rewrite Eb, Ec, (Ek HS'). unfold spec_asphericity, spec_acylindricity, spec_kappa2.
   assert (Eh : (l0 + l1) / (2 # 1) == (1 # 2) * (l0 + l1)) by (field).
   split; [rewrite Eh; lra|]. split; [lra|].
   set (t := l0 + l1 + l2) in *.
@@ -275,9 +292,9 @@ Proof.
 Qed.
 
 (* ------------------------------------------------------------------ density *)
-Theorem density_form ms v :
-  density ms v == qsum ms / v * (16605387823355087 # 10000000000000000).
-Proof. unfold density, density_formula, density_conversion. reflexivity. Qed.
+(* the code's density is total mass / volume times its hard-coded factor *)
+Theorem density_form ms v : density ms v == qsum ms / v * density_conversion.
+Proof. unfold density, density_formula. reflexivity. Qed.
 
 (* the hard-coded factor is 1 dalton/nm^3 in kg/m^3 (CODATA 2018: 1.66053906660) to 1e-6 *)
 Theorem density_conversion_value :
